@@ -1,0 +1,20 @@
+//go:build verif
+
+package auth
+
+import "time"
+
+// VerifRunSessionGC runs one pass of the session garbage collector (the loop body of StartSessionGC,
+// whose 15-minute ticker no test can wait for) synchronously on the caller's goroutine.
+// Verification builds only.
+func VerifRunSessionGC() {
+	now := time.Now()
+	for item := range sessionStore.Items() {
+		expiryMu.Lock()
+		expired := item.ExpiresAt.Before(now)
+		expiryMu.Unlock()
+		if expired {
+			sessionStore.Delete(item.ID)
+		}
+	}
+}
